@@ -255,6 +255,44 @@ func init() {
 				}
 			}
 		}
+		// Part 2c: runs of several blank lines at one position (before a root, before a first-level item, before
+		// a deeply nested item, at the end), every forest with up to runN nodes, every unit
+		runN := 5
+		if c.Thorough() {
+			runN = 6
+		}
+		c.Bound("blank_run_nodes", fmt.Sprint(runN))
+		for n := 2; n <= runN && !c.Expired(); n++ {
+			enum.DepthSeqs(n, func(d0 []int) {
+				d := append([]int{}, d0...)
+				roots := 0
+				for _, x := range d {
+					if x == 1 {
+						roots++
+					}
+				}
+				if !c.Take() || c.Expired() {
+					return
+				}
+				names := make([]string, n)
+				for i := range names {
+					names[i] = string(rune('a' + i%3))
+				}
+				cn := &c15Canon{doc: enum.Spell(d, names, enum.Canonical), out: map[string]string{}, roots: roots}
+				c.StateN(1)
+				c.Inc("blank_run_forests")
+				for ui, unit := range c15Units {
+					for pos := 0; pos <= n; pos++ {
+						for _, g := range []int{3, 4} {
+							gaps := make([]int, n+1)
+							gaps[pos] = g
+							idx++
+							c15Check(c, cn, d, names, enum.Spelling{Unit: unit, Bullets: []byte("-*"), Heading: ui%2 == 1 && g == 4, Gaps: gaps, CRLF: g == 4 && pos%2 == 0}, idx)
+						}
+					}
+				}
+			})
+		}
 		// Part 3: hostile names at n <= 2, full product (names with bullets or '#' at their edges, blanks inside)
 		{
 			host := []string{"x y", "C#", "#inc"}
